@@ -149,8 +149,29 @@ WinStaticAsRule(s) ==
         !.dstPorts = IF s.dir = "In" THEN s.localPorts ELSE s.remotePorts]
 WinHostAsRule(c) == [WinBlankRule EXCEPT !.srcNets = c.hostAddrs]
 
+(* The tier flattener turns a pass rule r1 and a rule r2 of a later tier into one rule "r1 and r2".  Per-rule
+   probes never mix the fields of two rules, so for every such pair a synthetic rule that takes each match
+   field from r2 when r2 sets it and from r1 otherwise contributes its probes too (e.g. r2's protocol with
+   r1's port).  Only used to choose probes.                                                              *)
+WinMerge(r1, r2) ==
+    [r2 EXCEPT !.proto = IF @ # 0 THEN @ ELSE r1.proto,
+               !.srcNets = IF @ # <<>> THEN @ ELSE r1.srcNets, !.dstNets = IF @ # <<>> THEN @ ELSE r1.dstNets,
+               !.srcPorts = IF @ # <<>> THEN @ ELSE r1.srcPorts, !.dstPorts = IF @ # <<>> THEN @ ELSE r1.dstPorts,
+               !.srcSets = IF @ # <<>> THEN @ ELSE r1.srcSets, !.dstSets = IF @ # <<>> THEN @ ELSE r1.dstSets]
+WinTierRules(c, dir, i) ==
+    UNION { PSElems(WinOfDir(c.tiers[i], dir)[j].rules) : j \in DOMAIN WinOfDir(c.tiers[i], dir) }
+WinLaterRules(c, dir, i) ==
+    UNION { WinTierRules(c, dir, j) : j \in (i + 1)..Len(c.tiers) }
+    \cup UNION { PSElems(WinOfDir(c.profiles[k], dir)) : k \in DOMAIN c.profiles }
+WinMergedAt(c, dir, i) ==
+    LET pass == { x \in WinTierRules(c, dir, i) : PSAction(x) = "pass" /\ x.dstIpPortSets = <<>> }
+        later == { x \in WinLaterRules(c, dir, i) : x.dstIpPortSets = <<>> }
+    IN UNION { { WinMerge(pr[1], pr[2]), WinMerge(pr[2], pr[1]) } : pr \in pass \X later }
+WinMergedRules(c, dir) == UNION { WinMergedAt(c, dir, i) : i \in DOMAIN c.tiers }
+
 WinProbeRules(c) ==
-    { WinProbeRule(r) : r \in WinDirRules(c, "In") \cup WinDirRules(c, "Out") }
+    { WinProbeRule(r) : r \in WinDirRules(c, "In") \cup WinDirRules(c, "Out")
+                              \cup WinMergedRules(c, "In") \cup WinMergedRules(c, "Out") }
     \cup { WinStaticAsRule(c.static[i]) : i \in DOMAIN c.static }
     \cup { WinHostAsRule(c), WinBlankRule }
 \* the same connections are tried in both directions
